@@ -36,6 +36,12 @@ type Proc struct {
 	Arch   distsys.MPCalArchetype
 	Locals []Local
 	Config func(p *Proc) []distsys.MPCalContextConfigFn
+	// Single: the spec declares this process with `process (P = id)`: its locals (and stack) are plain
+	// variables of the translation, not functions of self
+	Single bool
+	// PCName maps a label of the generated Go ("Arch.lbl", "proc.lbl") to the value pc[self] has in the
+	// TLA+ translation (default: the part after the first dot). Needed when pcal renamed duplicate labels.
+	PCName func(goLabel string) string
 	// ConstLocals: spec-local variables that never change and have no Go counterpart
 	// (e.g. a value passed for a mapped ref parameter): spec name -> TLA+ text
 	ConstLocals map[string]string
@@ -52,7 +58,8 @@ type Proc struct {
 	grant    chan bool // true = run an attempt, false = stop (sentinel panic)
 	done     chan error
 	event    *trace.Event
-	PC       string // label (without archetype prefix) the process is parked at
+	PC       string // spec-level pc value of the label the process is parked at
+	Label    string // the label as the generated Go names it
 	Finished bool
 	RunErr   error
 	choices  []Choice
@@ -135,6 +142,13 @@ type rec struct{ p *Proc }
 
 func (r rec) RecordEvent(ev trace.Event) { e := ev; e.Elements = append([]trace.Element(nil), ev.Elements...); r.p.event = &e }
 
+func (p *Proc) pcName(goLabel string) string {
+	if p.PCName != nil {
+		return p.PCName(goLabel)
+	}
+	return stripArch(goLabel)
+}
+
 func stripArch(pc string) string {
 	if i := strings.IndexByte(pc, '.'); i >= 0 {
 		return pc[i+1:]
@@ -187,7 +201,8 @@ var errStopped = errors.New("stopped by harness")
 func (p *Proc) wait() error {
 	select {
 	case pc := <-p.arrive:
-		p.PC = stripArch(pc)
+		p.PC = p.pcName(pc)
+		p.Label = pc
 		return nil
 	case err := <-p.done:
 		p.Finished = true
@@ -289,7 +304,7 @@ func (s *System) DumpState(extra map[string]string) string {
 	st := &State{G: s.W.G, P: make([]PState, len(s.Procs))}
 	for i, p := range s.Procs {
 		if p.Actor != nil {
-			st.P[i] = PState{PC: p.PC, Locals: p.Actor.Locals}
+			st.P[i] = PState{PC: p.PC, Label: p.PC, Locals: p.Actor.Locals}
 			continue
 		}
 		m := map[string]tla.Value{}
@@ -299,7 +314,7 @@ func (s *System) DumpState(extra map[string]string) string {
 		if p.HasStack {
 			m[".stack"] = p.Local(".stack")
 		}
-		st.P[i] = PState{PC: p.PC, Locals: m}
+		st.P[i] = PState{PC: p.PC, Label: p.Label, Locals: m}
 	}
 	return s.Dump(st)
 }
